@@ -16,6 +16,7 @@ import (
 	"testing"
 
 	corev1 "k8s.io/api/core/v1"
+	extv1 "k8s.io/apiextensions-apiserver/pkg/apis/apiextensions/v1"
 	"k8s.io/apimachinery/pkg/apis/meta/v1/unstructured"
 	"k8s.io/apimachinery/pkg/runtime"
 	"k8s.io/apimachinery/pkg/runtime/schema"
@@ -54,6 +55,7 @@ func (m *fakeMgr) GetScheme() *runtime.Scheme { return xrh.Scheme }
 type registration struct {
 	id  int
 	inf *fakeInformer
+	h   kcache.ResourceEventHandler
 }
 
 func (r *registration) HasSynced() bool { return true }
@@ -65,11 +67,11 @@ type fakeInformer struct {
 	c    *fakeCache
 }
 
-func (i *fakeInformer) AddEventHandler(kcache.ResourceEventHandler) (kcache.ResourceEventHandlerRegistration, error) {
+func (i *fakeInformer) AddEventHandler(h kcache.ResourceEventHandler) (kcache.ResourceEventHandlerRegistration, error) {
 	i.c.mu.Lock()
 	defer i.c.mu.Unlock()
 	i.c.nreg++
-	r := &registration{id: i.c.nreg, inf: i}
+	r := &registration{id: i.c.nreg, inf: i, h: h}
 	i.regs[r] = true
 	return r, nil
 }
@@ -90,12 +92,22 @@ type fakeCache struct {
 	mu   gosync.Mutex // real informers are thread safe
 	infs map[schema.GroupVersionKind]*fakeInformer
 	nreg int
+	// fail, when set, decides whether this GetInformer call fails (a costed
+	// deviation chosen by the explorer).
+	fail   func() bool
+	failed int
 }
 
 func (c *fakeCache) GetInformer(_ context.Context, obj client.Object, _ ...cache.InformerGetOption) (cache.Informer, error) {
 	gvk, err := apiutil.GVKForObject(obj, xrh.Scheme)
 	if err != nil {
 		return nil, err
+	}
+	if c.fail != nil && c.fail() {
+		c.mu.Lock()
+		c.failed++
+		c.mu.Unlock()
+		return nil, fmt.Errorf("injected informer error for %s", gvk.Kind)
 	}
 	c.mu.Lock()
 	defer c.mu.Unlock()
@@ -208,6 +220,9 @@ type world struct {
 	gcs   map[string]*watch.GarbageCollector
 	clock int
 	hist  []sched.Op
+
+	gcCtx    context.Context
+	gcCancel context.CancelFunc
 }
 
 func newWorld(xrRefs []string) *world {
@@ -229,7 +244,33 @@ func newWorld(xrRefs []string) *world {
 	for _, n := range []string{"c1", "c2"} {
 		w.gcs[n] = watch.NewGarbageCollector(n, resource.CompositeKind(xrh.XRGVK), w.eng)
 	}
+	w.gcCtx, w.gcCancel = context.WithCancel(context.Background())
+	if err := w.eng.GarbageCollectCustomResourceInformers(w.gcCtx); err != nil {
+		panic(err)
+	}
 	return w
+}
+
+// deleteCRD delivers a CRD delete event to the handler the engine registered
+// with GarbageCollectCustomResourceInformers.
+func (w *world) deleteCRD(kind string) {
+	gvk := kinds[kind]
+	crd := &extv1.CustomResourceDefinition{}
+	crd.SetName(strings.ToLower(gvk.Kind) + "s." + gvk.Group)
+	crd.Spec.Group = gvk.Group
+	crd.Spec.Names.Kind = gvk.Kind
+	crd.Spec.Versions = []extv1.CustomResourceDefinitionVersion{{Name: gvk.Version}}
+	w.cache.mu.Lock()
+	var hs []kcache.ResourceEventHandler
+	if i, ok := w.cache.infs[extv1.SchemeGroupVersion.WithKind("CustomResourceDefinition")]; ok {
+		for r := range i.regs {
+			hs = append(hs, r.h)
+		}
+	}
+	w.cache.mu.Unlock()
+	for _, h := range hs {
+		h.OnDelete(crd)
+	}
 }
 
 func (w *world) newController(name string, _ manager.Manager, _ kcontroller.Options) (kcontroller.Controller, error) {
@@ -286,7 +327,10 @@ func (w *world) exec(o op) string {
 	case "GC":
 		return errStr(w.gcs[o.ctrl].GarbageCollectWatchesNow(ctx))
 	case "RemoveInformer":
-		return errStr(w.infs.RemoveInformer(ctx, obj(o.kinds[0])))
+		// The production path: the CRD that defines the kind is deleted and
+		// the engine's CRD informer handler removes the kind's informer.
+		w.deleteCRD(o.kinds[0])
+		return "ok"
 	}
 	panic("unknown op " + o.name)
 }
@@ -397,7 +441,14 @@ func specStep(used map[string]bool) func(state string, o sched.Op) []sched.Alt {
 			}
 			return one("ok", st.String())
 		case "RemoveInformer":
-			return one("ok", state)
+			// The watches of the kind die with its informer; the engine
+			// forgets them (they are started again by the next request).
+			for _, w := range st {
+				for _, k := range ks {
+					delete(w, widName(wid(k)))
+				}
+			}
+			return one("ok", st.String())
 		}
 		panic("spec: unknown op " + o.Name)
 	}
@@ -406,11 +457,12 @@ func specStep(used map[string]bool) func(state string, o sched.Op) []sched.Alt {
 // ---- scenarios -----------------------------------------------------------------
 
 type scenario struct {
-	name    string
-	xrRefs  []string // one XR per entry referencing that composed kind ("" = no refs)
-	pre     []op     // sequential prefix
-	threads [][]op
-	bound   int
+	name           string
+	xrRefs         []string // one XR per entry referencing that composed kind ("" = no refs)
+	pre            []op     // sequential prefix
+	threads        [][]op
+	bound          int
+	informerFaults bool
 }
 
 func sw(c string, ks ...string) op  { return op{"StartWatches", c, ks} }
@@ -419,17 +471,21 @@ func stw(c string, ks ...string) op { return op{"StopWatches", c, ks} }
 func curated(bound int) []scenario {
 	start1 := op{"Start", "c1", nil}
 	return []scenario{
-		{"dup-start-watch", nil, []op{start1}, [][]op{{sw("c1", "k1")}, {sw("c1", "k1")}}, bound},
-		{"dup-start-watch-3", nil, []op{start1}, [][]op{{sw("c1", "k1")}, {sw("c1", "k1", "k2")}, {sw("c1", "k2")}}, bound},
-		{"stop-watch-race", nil, []op{start1, sw("c1", "k1", "k2")}, [][]op{{stw("c1", "k1")}, {stw("c1", "k1", "k2")}, {{"GetWatches", "c1", nil}}}, bound},
-		{"start-stop-isrunning", nil, nil, [][]op{{start1, sw("c1", "k1")}, {{"Stop", "c1", nil}}, {{"IsRunning", "c1", nil}}}, bound},
-		{"stop-vs-startwatches", nil, []op{start1}, [][]op{{{"Stop", "c1", nil}}, {sw("c1", "k1")}}, bound},
-		{"remove-informer", nil, []op{start1, sw("c1", "k1")}, [][]op{{{"RemoveInformer", "", []string{"k1"}}}, {sw("c1", "k1")}}, bound},
-		{"two-controllers", nil, []op{start1, {"Start", "c2", nil}, sw("c1", "k1"), sw("c2", "k1")}, [][]op{{{"Stop", "c1", nil}}, {sw("c2", "k1", "k2")}, {stw("c2", "k1")}}, bound},
-		{"gc-vs-startwatches", []string{"k1"}, []op{start1, sw("c1", "xr", "rev", "k1", "k2")}, [][]op{{{"GC", "c1", nil}}, {sw("c1", "k2")}, {{"GetWatches", "c1", nil}}}, bound},
-		{"gc-unused", []string{""}, []op{start1, sw("c1", "xr", "rev", "k1")}, [][]op{{{"GC", "c1", nil}}, {{"GetWatches", "c1", nil}}}, bound},
-		{"start-start-stop", nil, nil, [][]op{{start1}, {start1}, {{"Stop", "c1", nil}}}, bound},
-		{"restart", nil, []op{start1, sw("c1", "k1")}, [][]op{{{"Stop", "c1", nil}, start1}, {sw("c1", "k1")}, {{"GetWatches", "c1", nil}}}, bound},
+		{"dup-start-watch", nil, []op{start1}, [][]op{{sw("c1", "k1")}, {sw("c1", "k1")}}, bound, false},
+		{"dup-start-watch-3", nil, []op{start1}, [][]op{{sw("c1", "k1")}, {sw("c1", "k1", "k2")}, {sw("c1", "k2")}}, bound, false},
+		{"stop-watch-race", nil, []op{start1, sw("c1", "k1", "k2")}, [][]op{{stw("c1", "k1")}, {stw("c1", "k1", "k2")}, {{"GetWatches", "c1", nil}}}, bound, false},
+		{"start-stop-isrunning", nil, nil, [][]op{{start1, sw("c1", "k1")}, {{"Stop", "c1", nil}}, {{"IsRunning", "c1", nil}}}, bound, false},
+		{"stop-vs-startwatches", nil, []op{start1}, [][]op{{{"Stop", "c1", nil}}, {sw("c1", "k1")}}, bound, false},
+		{"remove-informer", nil, []op{start1, sw("c1", "k1")}, [][]op{{{"RemoveInformer", "", []string{"k1"}}}, {sw("c1", "k1")}}, bound, false},
+		{"two-controllers", nil, []op{start1, {"Start", "c2", nil}, sw("c1", "k1"), sw("c2", "k1")}, [][]op{{{"Stop", "c1", nil}}, {sw("c2", "k1", "k2")}, {stw("c2", "k1")}}, bound, false},
+		{"gc-vs-startwatches", []string{"k1"}, []op{start1, sw("c1", "xr", "rev", "k1", "k2")}, [][]op{{{"GC", "c1", nil}}, {sw("c1", "k2")}, {{"GetWatches", "c1", nil}}}, bound, false},
+		{"gc-unused", []string{""}, []op{start1, sw("c1", "xr", "rev", "k1")}, [][]op{{{"GC", "c1", nil}}, {{"GetWatches", "c1", nil}}}, bound, false},
+		{"start-start-stop", nil, nil, [][]op{{start1}, {start1}, {{"Stop", "c1", nil}}}, bound, false},
+		{"restart", nil, []op{start1, sw("c1", "k1")}, [][]op{{{"Stop", "c1", nil}, start1}, {sw("c1", "k1")}, {{"GetWatches", "c1", nil}}}, bound, false},
+		{"shared-informer-removed", nil, []op{start1, {"Start", "c2", nil}, sw("c1", "k1")}, [][]op{{sw("c2", "k1")}, {{"RemoveInformer", "", []string{"k1"}}}}, bound, false},
+		{"shared-informer-removed-3", nil, []op{start1, {"Start", "c2", nil}, sw("c1", "k1")}, [][]op{{sw("c2", "k1")}, {{"RemoveInformer", "", []string{"k1"}}}, {sw("c1", "k1", "k2")}}, bound, false},
+		{informerFaults: true, name: "stop-with-informer-error", pre: []op{start1, sw("c1", "k1", "k2")}, threads: [][]op{{{"Stop", "c1", nil}, {"Stop", "c1", nil}}, {{"IsRunning", "c1", nil}}}, bound: bound},
+		{informerFaults: true, name: "watches-with-informer-error", pre: []op{start1, sw("c1", "k1")}, threads: [][]op{{sw("c1", "k2"), stw("c1", "k1", "k2")}, {{"Stop", "c1", nil}}}, bound: bound},
 	}
 }
 
@@ -461,6 +517,10 @@ func body(r *explore.Run, rep *report.R, sc scenario) {
 		record("pre", o, func() string { return w.exec(o) })
 	}
 	s := sched.New(r)
+	s.ReleasePoints = true
+	if sc.informerFaults {
+		w.cache.fail = func() bool { return r.Choose(2, "informer-get") == 1 }
+	}
 	defer func() {
 		// Cleanup outside the scheduler: stop everything so that helper
 		// goroutines (controllers, collectors) exit and the bubble can end.
@@ -469,6 +529,7 @@ func body(r *explore.Run, rep *report.R, sc scenario) {
 		for _, c := range []string{"c1", "c2"} {
 			_ = w.eng.Stop(context.Background(), c)
 		}
+		w.gcCancel()
 	}()
 	for i, ops := range sc.threads {
 		ops := ops
@@ -482,6 +543,7 @@ func body(r *explore.Run, rep *report.R, sc scenario) {
 	}
 	s.Run()
 	s.Close()
+	w.cache.fail = nil
 	if len(s.Panics) > 0 {
 		r.Failf("panic/"+sc.name, "thread panicked: %v", s.Panics)
 	}
@@ -496,14 +558,22 @@ func body(r *explore.Run, rep *report.R, sc scenario) {
 		hs = append(hs, fmt.Sprintf("%s:%s(%s)=%s@%d-%d", h.Thread, h.Name, h.Args, h.Result, h.Call, h.Return))
 	}
 	r.Logf("history: %s", strings.Join(hs, " "))
-	if !sched.Linearizable(w.hist, "", specStep(used)) {
+	// A Stop that failed half way (injected informer error) leaves a partially
+	// stopped controller, which the sequential specification does not
+	// describe; such histories are judged by the structural checks only.
+	if w.cache.failed == 0 && !sched.Linearizable(w.hist, "", specStep(used)) {
 		r.Failf("linearizability/"+opClass(w.hist), "history is not linearizable w.r.t. the engine specification: %s", strings.Join(hs, " "))
 	}
 	// "A watch lost with its informer is re-established by the next start
-	// request": issue the next start request for every watch the engine
-	// reports, then count live handler registrations.
+	// request": every running controller now asks for both composed kinds
+	// (and again for whatever else it reports); afterwards each running
+	// controller must hold exactly one live registration per kind it watches.
 	expect := map[schema.GroupVersionKind]int{}
 	for _, c := range []string{"c1", "c2"} {
+		if !w.eng.IsRunning(c) {
+			continue
+		}
+		w.exec(sw(c, "k1", "k2"))
 		ws, err := w.eng.GetWatches(c)
 		if err != nil {
 			continue
@@ -515,6 +585,17 @@ func body(r *explore.Run, rep *report.R, sc scenario) {
 				}
 			}
 			expect[x.GVK]++
+		}
+		for _, k := range []string{"k1", "k2"} {
+			found := false
+			for _, x := range ws {
+				if x == wid(k) {
+					found = true
+				}
+			}
+			if !found {
+				r.Failf("watch/not-started-by-request", "controller %s asked for a watch on %s but does not hold it afterwards (history: %s)", c, k, strings.Join(hs, " "))
+			}
 		}
 	}
 	for n, g := range kinds {
@@ -585,7 +666,7 @@ func collectorBody(r *explore.Run, rep *report.R) {
 		}
 	}
 	w := newWorld(refs)
-	defer func() { _ = w.eng.Stop(context.Background(), "c1") }()
+	defer func() { _ = w.eng.Stop(context.Background(), "c1"); w.gcCancel() }()
 	w.exec(op{"Start", "c1", nil})
 	if len(running) > 0 {
 		w.exec(sw("c1", running...))
